@@ -111,4 +111,21 @@ def evict (sf : SkipFilter V) (k : Str) : SkipFilter V :=
 def walkAll (sf : SkipFilter V) : List (Nat × V) := sf.list
 
 end SkipFilter
+
+/-- Operations on the index; `evict` may drop any cached signature at any time (⊇ what the LRU does). -/
+inductive SfOp (V : Type) where
+  | add (v : V)
+  | remove (id : Nat)
+  | dispatch (k : Str)
+  | evict (k : Str)
+
+def sfApply {V : Type} (test : V → Str → Bool) (sf : SkipFilter V) : SfOp V → SkipFilter V
+  | .add v => sf.add v
+  | .remove id => sf.removeId id
+  | .dispatch k => (sf.matchAny test k).2
+  | .evict k => sf.evict k
+
+def sfRun {V : Type} (test : V → Str → Bool) (cap : Nat) (ops : List (SfOp V)) : SkipFilter V :=
+  ops.foldl (sfApply test) (SkipFilter.new cap)
+
 end Mercure
